@@ -1,1 +1,16 @@
-fn main(){}
+//! Entry point of the penguin-mux / cow-bytes / penguin-socks checks.
+//! `vmux <ID> --tier quick|thorough --out FILE [--replay FILE] [--threads N]`
+
+mod codec;
+mod drivers;
+mod explore;
+mod link;
+mod sim;
+
+pub use vcommon::{Args, report};
+
+fn main() {
+    vcommon::main_with(drivers::dispatch, |e| {
+        e.downcast_ref::<explore::Divergence>().map(|d| format!("divergence: {}", d.0))
+    })
+}
